@@ -197,10 +197,13 @@ REG['C08'] = dict(
     text='Lean 4 theorems over the PageDecoder state machine (decode_line with confident-line shortcut, re-priming from the last line, '
          'LM state carry-over; the decoder itself a pure function by C02/C03): the output of a page is independent of the state the '
          'instance is in, hence of ANY processing history (subsets, orders, repetitions); a run is page-wise; processing a page twice '
-         'gives identical output; any partition of the pages among fresh workers gives the sequential result. Whether process_page '
+         'gives identical output, also when the page object carries the results of the first pass (reprocess_fixpoint: the confident-line test '
+         'reads the logits only); any partition of the pages among fresh workers gives the sequential result. Whether process_page '
          'resets last_line is REGENERATED from the source each run. Correspondence: the real PageDecoder driven with a symbolic '
          'decoder/LM whose outputs encode their inputs vs the Lean model (exact); oracle with the real prefix decoder + toy LM and with the REAL '
          'LMWrapper/HiddenState around tiny seeded torch LMs (plain and tuple state; beam 1/2/4): page after a history = page alone = page twice; '
+         'the whole stage PageParser.process_page (decoder + update_confidences) on real TextLine objects twice on the same page object and on a '
+         'page re-loaded with its stored results, thresholds between the two confidence measures of a line; '
          'parse_folder --process-count 1 vs 2 on the model-free stage.',
     note='Trusted: multiprocessing.Pool.starmap (each task once, results in order); aliasing inside torch tensors of a real LM is only exercised (oracle), not modelled; the decoder '
          'call is stateless (proved for the model decoder in C02/C03, exercised on the real one).',
